@@ -281,3 +281,96 @@ theorem groupRuns_mem (l : List Inter) : ∀ blk ∈ groupRuns l, ∀ i ∈ blk.
   exact List.mem_flatMap.mpr ⟨blk, hblk, hi⟩
 
 end C02
+
+namespace C02
+
+def pinterOf (c : List (Int × Nat)) (s : String) (g : List (String × Bool)) (i : Inter) : PInter :=
+  ⟨s, g, idxsOf c i, i.params⟩
+
+theorem run_interLines (tbl : List (String × Arity)) (c : List (Int × Nat)) (w : Nat) (s : String) (ar : Arity)
+    (is : List Inter) (st : PState)
+    (hs : st.sect = some s) (h1 : s ≠ "moleculetype") (h2 : s ≠ "atoms")
+    (ht : tbl.lookup s = some ar) (hv : (ar = .firstSkip) ↔ (s = "virtual_sitesn"))
+    (hr : ∀ i ∈ is, InterReady c st.out.atoms.length ar i) :
+    run tbl st (is.map (interLine c w (s == "virtual_sitesn")))
+      = .ok { st with out := { st.out with inters := st.out.inters ++ is.map (pinterOf c s st.guard) } } := by
+  induction is generalizing st with
+  | nil => simp [run]
+  | cons i t ih =>
+    have hi := hr i (by simp)
+    simp only [List.map_cons]
+    have hstep : step tbl st (lineTokens (interLine c w (s == "virtual_sitesn") i)) = .ok _ :=
+      step_inter tbl st s ar w (idxsOf c i) i.params i.comment hs h1 h2 ht
+        (by rw [idxsOf_length hi]; exact hi.fits) hv (idxsOf_range hi)
+    rw [run_cons_ok tbl st _ _ _ hstep]
+    rw [ih { st with out := { st.out with
+        inters := st.out.inters ++ [⟨s, st.guard, idxsOf c i, i.params⟩] } } hs
+      (fun j hj => hr j (by simp [hj]))]
+    simp [pinterOf]
+
+def guardList (k : Key) : List (String × Bool) :=
+  match k.cond with
+  | some cnd => [cnd]
+  | none => []
+
+theorem run_block (tbl : List (String × Arity)) (c : List (Int × Nat)) (w : Nat) (s : String) (ar : Arity)
+    (post : List Line) (blk : Key × List Inter) (st : PState)
+    (hs : st.sect = some s) (hg : st.guard = []) (h1 : s ≠ "moleculetype") (h2 : s ≠ "atoms")
+    (ht : tbl.lookup s = some ar) (hv : (ar = .firstSkip) ↔ (s = "virtual_sitesn"))
+    (hr : ∀ i ∈ blk.2, InterReady c st.out.atoms.length ar i)
+    (hpost : ∀ l ∈ post, skippable (lineTokens l) = true) :
+    run tbl st (blockLines c w s post blk)
+      = .ok { st with out := { st.out with
+                inters := st.out.inters ++ blk.2.map (pinterOf c s (guardList blk.1)) } } := by
+  obtain ⟨k, is⟩ := blk
+  unfold blockLines
+  simp only [List.append_assoc]
+  cases hc : k.cond with
+  | none =>
+    simp only [guardOpen, guardClose, guardList, hc, List.nil_append]
+    rw [run_append_ok tbl st st _ _ (run_skip tbl _ _ (by
+      intro l hl; unfold groupLine at hl; split at hl <;> simp at hl; subst hl; rfl))]
+    rw [run_append_ok tbl st _ _ _ (run_interLines tbl c w s ar is st hs h1 h2 ht hv hr)]
+    rw [run_append_ok tbl _ _ _ _ (run_skip tbl _ _ hpost)]
+    rw [run_cons_ok tbl _ _ _ _ (step_nil tbl _)]
+    simp [run, hg]
+  | some cnd =>
+    obtain ⟨d, flag⟩ := cnd
+    simp only [guardOpen, guardClose, guardList, hc, List.cons_append, List.nil_append]
+    have hopen : step tbl st (lineTokens (Line.directive (if flag then "#ifdef" else "#ifndef") [d]))
+        = .ok { st with guard := [(d, flag)] } := by
+      cases flag
+      · simpa [lineTokens, hg] using step_ifndef tbl st d
+      · simpa [lineTokens, hg] using step_ifdef tbl st d
+    rw [run_cons_ok tbl st _ _ _ hopen]
+    rw [run_append_ok tbl _ _ _ _ (run_skip tbl _ _ (by
+      intro l hl; unfold groupLine at hl; split at hl <;> simp at hl; subst hl; rfl))]
+    rw [run_append_ok tbl _ _ _ _ (run_interLines tbl c w s ar is { st with guard := [(d, flag)] }
+      hs h1 h2 ht hv hr)]
+    rw [run_cons_ok tbl _ _ _ _ (by simpa [lineTokens] using step_endif tbl _ (d, flag) [] rfl)]
+    rw [run_append_ok tbl _ _ _ _ (run_skip tbl _ _ hpost)]
+    rw [run_cons_ok tbl _ _ _ _ (step_nil tbl _)]
+    simp [run, hg]
+
+theorem run_blocks (tbl : List (String × Arity)) (c : List (Int × Nat)) (w : Nat) (s : String) (ar : Arity)
+    (post : List Line) (blks : List (Key × List Inter)) (st : PState)
+    (hs : st.sect = some s) (hg : st.guard = []) (h1 : s ≠ "moleculetype") (h2 : s ≠ "atoms")
+    (ht : tbl.lookup s = some ar) (hv : (ar = .firstSkip) ↔ (s = "virtual_sitesn"))
+    (hr : ∀ blk ∈ blks, ∀ i ∈ blk.2, InterReady c st.out.atoms.length ar i)
+    (hpost : ∀ l ∈ post, skippable (lineTokens l) = true) :
+    run tbl st ((blks.map (blockLines c w s post)).flatten)
+      = .ok { st with out := { st.out with
+                inters := st.out.inters
+                  ++ blks.flatMap (fun blk => blk.2.map (pinterOf c s (guardList blk.1))) } } := by
+  induction blks generalizing st with
+  | nil => simp [run]
+  | cons b t ih =>
+    simp only [List.map_cons, List.flatten_cons, List.flatMap_cons]
+    rw [run_append_ok tbl st _ _ _ (run_block tbl c w s ar post b st hs hg h1 h2 ht hv
+      (hr b (by simp)) hpost)]
+    rw [ih { st with out := { st.out with
+        inters := st.out.inters ++ b.2.map (pinterOf c s (guardList b.1)) } } hs hg
+      (fun blk hb => hr blk (by simp [hb]))]
+    simp
+
+end C02
